@@ -40,9 +40,9 @@ Definition rm_after_eqb (c : config) (now : Z) (final : list node) (obs : list r
   forallb (fun n => existsb (fun o => match o with (id, k, cl, f) =>
       N.eqb id (n_id n) && key_eqb k (addr_key (n_addr n)) && N.eqb cl (rm_class c now n) && Bool.eqb f (n_failed n) end) obs) final.
 
-Definition rm_check (c : config) (now : Z) (booted : bool) (answering fans : list (N * (bytes * N))) (nodes : list node) (classes : list N)
+Definition rm_check (c : config) (now : Z) (booted : bool) (answering others fans : list (N * (bytes * N))) (nodes : list node) (classes : list N)
            (boot : list rmk) (obs : list rm_obs) (after : list rm_after_entry) : bool :=
   list_eqb2 N.eqb (map (rm_class c now) nodes) classes &&
   rmk_set_eqb (rm_keys (rm_boot_asked c booted nodes)) boot &&
-  (let '(ph, final) := rm_pass c now booted answering fans nodes in
+  (let '(ph, final) := rm_pass c now booted answering others fans nodes in
    list_eqb2 rm_phase_obs_eqb (filter rm_visible ph) obs && rm_after_eqb c now final after).
